@@ -251,7 +251,7 @@ func definedInLoop(v ssa.Value, l *natLoop) bool {
 
 func ruleLoops(c *Ctx) {
 	c.Rule("LOOP-D", "Definite divergence: no natural loop of the module has a cycle path (header → … → back edge) on which every header phi receives its own value or a loop-invariant and no instruction has a side effect (store, map update, append, impure call; the reader's idempotent methods current, currentNode, remainingNodeBytes, jumped are admitted as neutral). On such a path nothing any branch on the cycle can read has changed, so once taken it repeats forever.")
-	c.Rule("LOOP-N", "Reader exit discipline: in a loop that calls (*inlineByteReader).next, no cycle path exists on which next()'s result decides no branch and every branch condition is a predicate of current() that evaluates in favour of the cycle for the value 0 (what current() returns at end of input), or a constant.")
+	c.Rule("LOOP-N", "Reader exit discipline: in a loop that calls (*inlineByteReader).next, no cycle path exists on which next()'s result decides no branch and every branch condition is a predicate of current() that evaluates in favour of the cycle for some byte value — once the reader has run out of nodes next() returns false without moving and current() keeps returning the byte that follows in the source (0 only at the very end of the root block) — or a constant.")
 	p := c.P
 	pu := newPurity(p)
 	bs := newBSET(p)
@@ -357,75 +357,85 @@ func ruleLoops(c *Ctx) {
 						f := call.Call.StaticCallee()
 						return f != nil && isReaderMethod(f) && f.Name() == "current"
 					}
-					allBlind := true
-					for i, b := range path {
-						iff := blockIf(b)
-						if iff == nil {
-							continue
-						}
-						var next *ssa.BasicBlock
-						if i+1 < len(path) {
-							next = path[i+1]
-						} else {
-							next = l.header
-						}
-						// does the condition depend on a next() result?
-						depNext := false
-						for _, nc := range nextCalls {
-							if dependsOn(iff.Cond, nc) {
-								depNext = true
+					// When the reader has run out of nodes next() returns false without moving, and current() returns whatever
+					// byte follows in the source (0 only at the very end of the root block): the cycle is blind if for SOME byte
+					// value every condition on it stays in favour of the cycle.
+					allBlind := false
+					witness := int64(0)
+					for d := int64(0); d < 256 && !allBlind; d++ {
+						blindAtD := true
+						for i, b := range path {
+							iff := blockIf(b)
+							if iff == nil {
+								continue
 							}
-						}
-						// any next() anywhere (other loops' results flowing in) also counts
-						if !depNext {
-							seen := map[ssa.Value]bool{}
-							var w func(v ssa.Value)
-							w = func(v ssa.Value) {
-								if v == nil || seen[v] {
-									return
-								}
-								seen[v] = true
-								switch x := v.(type) {
-								case *ssa.Call:
-									if f := x.Call.StaticCallee(); f != nil && isReaderMethod(f) && f.Name() == "next" {
-										depNext = true
-									}
-								case *ssa.UnOp:
-									w(x.X)
-								case *ssa.BinOp:
-									w(x.X)
-									w(x.Y)
-								case *ssa.Phi:
-									for _, e := range x.Edges {
-										w(e)
-									}
+							var next *ssa.BasicBlock
+							if i+1 < len(path) {
+								next = path[i+1]
+							} else {
+								next = l.header
+							}
+							// does the condition depend on a next() result?
+							depNext := false
+							for _, nc := range nextCalls {
+								if dependsOn(iff.Cond, nc) {
+									depNext = true
 								}
 							}
-							w(iff.Cond)
+							// any next() anywhere (other loops' results flowing in) also counts
+							if !depNext {
+								seen := map[ssa.Value]bool{}
+								var w func(v ssa.Value)
+								w = func(v ssa.Value) {
+									if v == nil || seen[v] {
+										return
+									}
+									seen[v] = true
+									switch x := v.(type) {
+									case *ssa.Call:
+										if f := x.Call.StaticCallee(); f != nil && isReaderMethod(f) && f.Name() == "next" {
+											depNext = true
+										}
+									case *ssa.UnOp:
+										w(x.X)
+									case *ssa.BinOp:
+										w(x.X)
+										w(x.Y)
+									case *ssa.Phi:
+										for _, e := range x.Edges {
+											w(e)
+										}
+									}
+								}
+								w(iff.Cond)
+							}
+							if depNext {
+								blindAtD = false
+								break
+							}
+							st := &evalState{e: bs, fn: fn, isSym: isCurrent, d: d, from: make([]int, len(fn.Blocks))}
+							for j := range st.from {
+								st.from[j] = -2
+							}
+							for bb, pr := range predOf {
+								st.from[bb.Index] = pr.Index
+							}
+							v, ok := st.eval(iff.Cond)
+							if !ok {
+								blindAtD = false // depends on something else (a counter, a position): may exit
+								break
+							}
+							taken := b.Succs[1]
+							if v != 0 {
+								taken = b.Succs[0]
+							}
+							if taken != next {
+								blindAtD = false // for this byte the path is left
+								break
+							}
 						}
-						if depNext {
-							allBlind = false
-							break
-						}
-						st := &evalState{e: bs, fn: fn, isSym: isCurrent, d: 0, from: make([]int, len(fn.Blocks))}
-						for j := range st.from {
-							st.from[j] = -2
-						}
-						for bb, pr := range predOf {
-							st.from[bb.Index] = pr.Index
-						}
-						v, ok := st.eval(iff.Cond)
-						if !ok {
-							allBlind = false // depends on something else (a counter, a position): may exit
-							break
-						}
-						taken := b.Succs[1]
-						if v != 0 {
-							taken = b.Succs[0]
-						}
-						if taken != next {
-							allBlind = false // at end of input this path is left
-							break
+						if blindAtD {
+							allBlind, witness = true, d
 						}
 					}
 					if allBlind {
@@ -433,7 +443,7 @@ func ruleLoops(c *Ctx) {
 						for _, b := range path {
 							names = append(names, fmt.Sprint(b.Index))
 						}
-						blind = "cycle through blocks " + strings.Join(names, "→") + " calls next() without looking at its result and every condition on it stays true when current() returns 0 at end of input"
+						blind = fmt.Sprintf("cycle through blocks %s calls next() without looking at its result and every condition on it stays true when current() keeps returning %q once the reader has run out of nodes", strings.Join(names, "→"), rune(witness))
 						blindPos = nextCalls[0].Pos()
 					}
 				}
